@@ -286,7 +286,10 @@ def evaluate(ctx, stacks, pairs, data, vals, wvals, gold, cfgs):
 
 def run(ctx):
     stacks, pairs, data, vals, wvals, gold = gen(ctx)
-    return evaluate(ctx, stacks, pairs, data, vals, wvals, gold, ["dbg", "rel"])
+    corr = evaluate(ctx, stacks, pairs, data, vals, wvals, gold, ["dbg", "rel"])
+    from harness import srcconst
+    srcconst.check(corr)        # magic numbers and layer tags read from the source text == the model's constants
+    return corr
 
 
 def replay(ctx):
